@@ -117,3 +117,27 @@ package resource
 //@   // previously stored message is left exactly as it was
 //@   ensures [fresh-store] err == nil ==> fresh(res) && res != value
 //@   ensures [old-untouched] !isnil(old(recv.value)) ==> msgval(old(recv.value)) == old(msgval(recv.value))
+//@
+//@ // ---- events are filtered on clones: the read mask is applied to the new AND the old value, every other field of the
+//@ // event is kept, and neither the event nor its messages are written (C06, C04, C07)
+//@ pure func projected(out, in, f) = (f.fields == nil ==> equalmsg(out, in)) && (isnil(in) ==> isnil(out)) &&
+//@ |   (f.fields != nil && !isnil(in) && len(f.fields.Paths) > 0 ==> sametype(out, in) && msgval(out) == filtered(msgval(in), f.fields.Paths) && ref(out) != ref(in)) &&
+//@ |   (f.fields != nil && !isnil(in) && len(f.fields.Paths) == 0 ==> sametype(out, in) && msgval(out) == emptymsg(in) && ref(out) != ref(in))
+//@
+//@ func (*ValueChange).filter(filter) (res)
+//@   requires recv != nil && filter != nil
+//@   requires [mask-valid] filter.fields == nil || isnil(recv.Value) || pathsvalid(filter.fields.Paths, recv.Value)
+//@   ensures [value] res != nil && projected(res.Value, old(recv.Value), filter)
+//@   ensures [rest-kept] res.ChangeTime == old(recv.ChangeTime) && res.SeedValue == old(recv.SeedValue) && res.LastSeedValue == old(recv.LastSeedValue)
+//@   ensures [event-untouched] recv.Value == old(recv.Value) && recv.ChangeTime == old(recv.ChangeTime) && msgval(recv.Value) == old(msgval(recv.Value))
+//@   modifies nothing
+//@
+//@ func (*CollectionChange).filter(filter) (res)
+//@   requires recv != nil && filter != nil
+//@   requires [mask-valid-new] filter.fields == nil || isnil(recv.NewValue) || pathsvalid(filter.fields.Paths, recv.NewValue)
+//@   requires [mask-valid-old] filter.fields == nil || isnil(recv.OldValue) || pathsvalid(filter.fields.Paths, recv.OldValue)
+//@   ensures [new-value] res != nil && projected(res.NewValue, old(recv.NewValue), filter)
+//@   ensures [old-value] projected(res.OldValue, old(recv.OldValue), filter)
+//@   ensures [rest-kept] res.Id == old(recv.Id) && res.ChangeType == old(recv.ChangeType) && res.ChangeTime == old(recv.ChangeTime) && res.SeedValue == old(recv.SeedValue) && res.LastSeedValue == old(recv.LastSeedValue)
+//@   ensures [event-untouched] recv.NewValue == old(recv.NewValue) && recv.OldValue == old(recv.OldValue) && msgval(recv.NewValue) == old(msgval(recv.NewValue)) && msgval(recv.OldValue) == old(msgval(recv.OldValue))
+//@   modifies nothing
